@@ -521,6 +521,124 @@ theorem validateDef_some (O : Oracle) (lines : List (Line × List Param)) (e : E
             obtain ⟨l', hl', r⟩ := hw
             exact ⟨l', by simp only [List.map_cons]; exact List.mem_cons_of_mem _ hl', r⟩
 
+/-! ### strconv.Atoi -/
+theorem digitsVal_iff (cs : List Nat) : ∀ (acc v : Nat),
+    digitsVal cs acc = some v ↔
+      (∀ c ∈ cs, 48 ≤ c ∧ c ≤ 57) ∧ v = (cs.map (· - 48)).foldl (fun a d => a * 10 + d) acc := by
+  induction cs with
+  | nil => intro acc v; simp [digitsVal, eq_comm]
+  | cons c cs ih =>
+    intro acc v
+    rw [digitsVal]
+    by_cases hc : 48 ≤ c ∧ c ≤ 57
+    · rw [if_pos hc, ih]
+      simp only [List.forall_mem_cons, List.map_cons, List.foldl_cons]
+      constructor
+      · rintro ⟨h1, h2⟩; exact ⟨⟨hc, h1⟩, h2⟩
+      · rintro ⟨⟨_, h1⟩, h2⟩; exact ⟨h1, h2⟩
+    · rw [if_neg hc]
+      simp only [reduceCtorEq, List.forall_mem_cons, false_iff, not_and]
+      intro ⟨h, _⟩; exact absurd h hc
+
+theorem map_sub_add_48 (cs : List Nat) (h : ∀ c ∈ cs, 48 ≤ c ∧ c ≤ 57) :
+    (cs.map (· - 48)).map (· + 48) = cs := by
+  induction cs with
+  | nil => rfl
+  | cons c cs ih =>
+    simp only [List.map_cons, List.cons.injEq]
+    have := h c List.mem_cons_self
+    exact ⟨by omega, ih (fun x hx => h x (List.mem_cons_of_mem _ hx))⟩
+
+theorem map_add_sub_48 (ds : List Nat) : (ds.map (· + 48)).map (· - 48) = ds := by
+  induction ds with
+  | nil => rfl
+  | cons d ds ih => simp only [List.map_cons, List.cons.injEq]; exact ⟨by omega, ih⟩
+
+/-- the body after the sign, as `atoi` computes it -/
+def atoiBody (neg : Bool) (body : Str) : Option Int :=
+  if body.isEmpty then none
+  else match digitsVal body 0 with
+    | none => none
+    | some v =>
+      if neg then (if v ≤ 2 ^ 63 then some (-(v : Int)) else none)
+      else (if v < 2 ^ 63 then some (v : Int) else none)
+
+theorem atoi_minus (r : Str) : atoi (45 :: r) = atoiBody true r := rfl
+theorem atoi_plus (r : Str) : atoi (43 :: r) = atoiBody false r := rfl
+theorem atoi_nosign (s : Str) (h1 : ∀ r, s ≠ 45 :: r) (h2 : ∀ r, s ≠ 43 :: r) :
+    atoi s = atoiBody false s := by
+  unfold atoi
+  split
+  rename_i neg body heq
+  split at heq
+  · exact absurd rfl (h1 _)
+  · exact absurd rfl (h2 _)
+  · simp only [Prod.mk.injEq] at heq
+    obtain ⟨rfl, rfl⟩ := heq
+    rfl
+
+theorem atoi_body (neg : Bool) (body : Str) (i : Int) :
+    atoiBody neg body = some i ↔
+    body ≠ [] ∧ (∀ c ∈ body, 48 ≤ c ∧ c ≤ 57) ∧
+      i = (if neg then -(decVal (body.map (· - 48)) : Int) else (decVal (body.map (· - 48)) : Int)) ∧
+      -(2 ^ 63 : Int) ≤ i ∧ i < 2 ^ 63 := by
+  unfold atoiBody
+  cases body with
+  | nil => simp
+  | cons c cs =>
+    simp only [List.isEmpty_cons, Bool.false_eq_true, if_false, ne_eq, reduceCtorEq, not_false_eq_true,
+      true_and]
+    cases hd : digitsVal (c :: cs) 0 with
+    | none =>
+      simp only [reduceCtorEq, false_iff, not_and]
+      intro hall
+      have := (digitsVal_iff (c :: cs) 0 _).mpr ⟨hall, rfl⟩
+      rw [hd] at this; cases this
+    | some v =>
+      obtain ⟨hall, hv⟩ := (digitsVal_iff (c :: cs) 0 v).mp hd
+      have hv' : v = decVal ((c :: cs).map (· - 48)) := hv
+      simp only
+      cases neg with
+      | true =>
+        simp only [if_true]
+        by_cases hr : v ≤ 2 ^ 63
+        · rw [if_pos hr]
+          simp only [Option.some.injEq]
+          constructor
+          · rintro rfl; exact ⟨hall, by rw [hv'], by omega, by omega⟩
+          · rintro ⟨_, hi, _, _⟩; rw [hi, hv']
+        · rw [if_neg hr]
+          simp only [reduceCtorEq, false_iff, not_and]
+          intro _ hi hlo _
+          rw [← hv'] at hi; omega
+      | false =>
+        simp only [Bool.false_eq_true, if_false]
+        by_cases hr : v < 2 ^ 63
+        · rw [if_pos hr]
+          simp only [Option.some.injEq]
+          constructor
+          · rintro rfl; exact ⟨hall, by rw [hv'], by omega, by omega⟩
+          · rintro ⟨_, hi, _, _⟩; rw [hi, hv']
+        · rw [if_neg hr]
+          simp only [reduceCtorEq, false_iff, not_and]
+          intro _ hi _ hhi
+          rw [← hv'] at hi; omega
+
+/-! ### time.ParseDuration -/
+theorem leadingInt_all_digits (l : Str) : ∀ x, (∀ c ∈ l, isDigit c = true) →
+    leadingInt l x = none ∨ ∃ y, leadingInt l x = some (y, []) := by
+  induction l with
+  | nil => intro x _; exact Or.inr ⟨x, rfl⟩
+  | cons c cs ih =>
+    intro x h
+    rw [leadingInt, if_pos (h c List.mem_cons_self)]
+    split
+    · exact Or.inl rfl
+    · simp only
+      split
+      · exact Or.inl rfl
+      · exact ih _ (fun d hd => h d (List.mem_cons_of_mem _ hd))
+
 /-! ### membership in the result, node by node -/
 theorem mem_specMembers_iff (O : Oracle) (lines : List (Line × List Param)) (pool : List Node)
     (i : Nat) (v : Int) :
